@@ -100,7 +100,7 @@ fn fields_scenario(name: String, params: Value) -> Scenario {
         if nuser == 3 {
             // names in no particular order, one repeated non-adjacently, case variants: the stream
             // item must expose the pairs in wire order
-            for (k, v) in [("trace", "1"), ("origin", "2"), ("trace", "3"), ("Origin", "4"), ("", "5")] {
+            for (k, v) in [("trace", "1"), ("origin", "2"), ("trace", "3"), ("Origin", "4"), ("", "5"), ("trace", "1"), ("", "5")] {
                 props.push(Prop::user(k, v));
             }
         } else {
@@ -309,8 +309,60 @@ fn bits(name: String, params: Value) -> Scenario {
     })
 }
 
+/// A stream that lags n messages behind (held back, or stream() called that late); behind the backlog
+/// QoS 1 and QoS 2 messages for it arrive - each is acknowledged (C08) and yielded once the stream reads.
+pub fn deep_backlog(prop: &'static str, name: String, params: Value) -> Scenario {
+    let n = params["n"].as_u64().unwrap_or(70_000) as usize;
+    Box::new(move |chz, ex| {
+        let late = chz.choose(2) == 1;
+        let mut sys = Sys::new(prop, &name, chz);
+        sys.params = params.clone();
+        sys.m.check_client_acks = prop == "C08";
+        sys.bring_up(vec![]);
+        for i in 0..2 {
+            sys.apply(Ev::Start(OpSpec::Subscribe(SubscribeSpec::simple(&format!("s/{}", i)))));
+            if sys.dead {
+                return sys.report(ex, &[]);
+            }
+            let ack = sys.ack_for(i, 0, "").unwrap();
+            sys.apply(Ev::Deliver(ack));
+        }
+        sys.apply(Ev::TakeStream(1));
+        if !late {
+            sys.apply(Ev::TakeStream(0));
+            sys.apply(Ev::Hold(crate::world::Tid::Stream(1)));
+        }
+        let a = sys.m.subs[0].sub_id.unwrap();
+        let b = sys.m.subs[1].sub_id.unwrap();
+        for i in 0..n {
+            sys.apply(Ev::Deliver(inbound(0, false, 0, &[a], &format!("{}", i))));
+            if i % 1000 == 0 {
+                sys.apply(Ev::Deliver(inbound(0, false, 0, &[b], &format!("other{}", i))));
+            }
+            if sys.dead {
+                return sys.report(ex, &[]);
+            }
+        }
+        // behind the backlog: messages that must be acknowledged
+        sys.apply(Ev::Deliver(inbound(1, false, 9, &[a], "q1-behind")));
+        sys.apply(Ev::Deliver(inbound(2, false, 8, &[a], "q2-behind")));
+        sys.apply(Ev::Deliver(pubrel_in(8)));
+        sys.apply(Ev::Deliver(inbound(1, false, 10, &[a, b], "q1-both")));
+        if late {
+            sys.apply(Ev::TakeStream(0));
+        }
+        sys.apply(Ev::Deliver(inbound(0, false, 0, &[a, b], "after")));
+        sys.finish();
+        sys.events = vec![format!("{} messages unread in one stream ({}), QoS 1 / QoS 2 messages behind them, then it is read", n, if late { "stream() called late" } else { "stream held back" })];
+        sys.report(ex, &["message-dispatched"]);
+    })
+}
+
 pub fn scenario(name: &str, params: &Value) -> Scenario {
     if name == "C07/deep-backlog" {
+        return deep_backlog("C07", name.to_string(), params.clone());
+    }
+    if false {
         let n = params["n"].as_u64().unwrap_or(70_000) as usize;
         let name = name.to_string();
         let params = params.clone();
